@@ -185,8 +185,13 @@ func (b *BN) Domain(_ context.Context, domainType eth2p0.DomainType, epoch eth2p
 // GenesisDomain: genesis fork version and the zero validators root (builder domain, deposits).
 func (b *BN) GenesisDomain(_ context.Context, domainType eth2p0.DomainType) (eth2p0.Domain, error) {
 	b.log("GenesisDomain")
-	if err := b.failOnly("domain"); err != nil {
+	if err := b.failOnly("genesis_domain"); err != nil {
 		return eth2p0.Domain{}, err
+	}
+	// as the HTTP client computes it: the genesis fork version, and the chain's genesis validators root for
+	// every domain type but the application (builder) one
+	if domainType != DomainTypes["DOMAIN_APPLICATION_BUILDER"] {
+		return ComputeDomain(domainType, b.Forks[0].Version, b.GenesisValidatorsRoot), nil
 	}
 	return ComputeDomain(domainType, b.Forks[0].Version, eth2p0.Root{}), nil
 }
